@@ -15,17 +15,21 @@ Decided statically (all for every member of the stated input classes / for all i
   R4  arithmetic faithfulness: no overflow / self-check obligation on any verify path for
       arbitrary (pk, sig) (the D2 class of defects), beyond the assumed ones of rules/assume.json.
   R5  contexts longer than 255 bytes are rejected (see C07; re-checked here for verify roots).
+  R6  UseHint (both gamma2, h = 0 and 1), Decompose / HighBits / LowBits and mod+- equal their FIPS
+      definitions on their whole domain (engine of C15): w1' is the FIPS w1' for every w'_approx, h.
 Acceptance side (valid signatures are accepted) depends on hash values: only C01's clauses.
 """
 import os
 import sys
 
 sys.path.insert(0, os.path.join(os.path.dirname(os.path.abspath(__file__)), "..", "lib"))
+sys.path.insert(0, os.path.dirname(os.path.abspath(__file__)))
 import absorb
 import aicheck
 import hintclasses
 import roots
 import vlib
+import c15
 
 
 def bitlen(x):
@@ -64,6 +68,8 @@ def main(tier):
             rep.violation(key, detail)
 
     samples, n_classes = analyse(rep, ob, aicheck.sets_for(tier))
+    # R6: the scalar kernels of the decision equal their FIPS definitions on the whole domain
+    ksamples, kstats = c15.analyse(rep, ob, tier, {"use_hint", "decompose", "center_mod"}, prefix="R6:")
     cov = {
         "obligations": cnt[0], "discharged": cnt[1],
         "checker_cmd": "python3 bin/check C02 (driver ai mode on abstract signature classes through verify / hash_verify / _internal_verify)",
